@@ -781,6 +781,145 @@ def handshake_write_error_case(driver, seed, i, res):
         sim.close()
 
 
+def second_round_case(driver, seed, i, res):
+    """The gateway is absent, the driver uses up its reconnect limit and reports 'failed'; the application calls connect()
+    again later: that is a new round - with the gateway still absent it ends in 'failed' again, with the gateway back it
+    ends in 'connected' and commands work."""
+    r = rng(seed, "C17", "second-round", driver, i)
+    picker = simlib.Picker(r)
+    limit = r.choice([0, 1, 3])
+    sim = simlib.Sim(driver, picker, hid_kwargs={"reconnect_interval": 0.3, "reconnect_limit": limit})
+    got = {}
+
+    async def main(sim):
+        d = sim.driver
+        sim.dev.lose("eof")
+        d.connect()
+        await asyncio.sleep(0.3 * (limit + 2) + 0.5)
+        got["after_first"] = [s_ for (_t, s_) in sim.status_events]
+        d.connect()
+        await asyncio.sleep(0.3 * (limit + 2) + 0.5)
+        got["after_second"] = [s_ for (_t, s_) in sim.status_events]
+        sim.dev.restore()
+        d.connect()
+        try:
+            await asyncio.wait_for(d.connected.wait(), 0.3 * (limit + 2) + 3.0)
+        except (asyncio.TimeoutError, TimeoutError):
+            got["never_connected"] = True
+            return True
+        cmd = simlib.make_command(r, "query", 1, 4, driver)
+        t1 = sim.world.now
+        try:
+            got["send"] = ("ok", await asyncio.wait_for(d.send(cmd), 5.0), cmd, t1)
+        except Exception as e:
+            got["send"] = ("exc", e, cmd, t1)
+        await asyncio.sleep(0.2)
+        got["final"] = [s_ for (_t, s_) in sim.status_events]
+        return True
+
+    out, stalled = sim.run(main)
+    res.evaluations += 1
+    res.distinct += 1
+    res.hit("second_round_runs")
+    wit = {"driver": driver, "seed": seed, "case": i, "reconnect_limit": limit, "events": got.get("final") or got.get("after_second")}
+    try:
+        if simlib.detached(out):
+            res.inconclusive.append('harness detached: ' + str(out))
+            return
+        if stalled or out is not True:
+            res.violation(f"C17/{driver}/second-round/stall-or-crash", f"simulation ended with {'a stall' if stalled else repr(out)}", wit)
+            return
+        n1 = (got.get("after_first") or []).count("failed")
+        n2 = (got.get("after_second") or []).count("failed")
+        if n1 != 1:
+            res.violation(f"C17/{driver}/failed-not-reported" if n1 == 0 else f"C17/{driver}/failed-reported-twice",
+                          f"gateway absent, reconnect_limit={limit}: events after the first round {got.get('after_first')}", wit)
+            return
+        if n2 != 2:
+            res.violation(f"C17/{driver}/second-round/failed-not-reported", f"the application called connect() again with the gateway still "
+                          f"absent: events {got.get('after_second')} ('failed' {n2 - 1} times for the second round, expected once)", wit)
+            return
+        if got.get("never_connected"):
+            res.violation(f"C17/{driver}/second-round/never-connected", "the gateway is back and connect() was called, but the driver did not connect", wit)
+            return
+        sd = got.get("send")
+        if sd is None or sd[0] == "exc":
+            res.violation(f"C17/{driver}/second-round/send-failed", f"send after the third connect(): {sd and sd[1]!r}", wit)
+            return
+        p = check_answer(driver, sd[2], sd[1], sim.bus.wire, t_from=sd[3])
+        if p:
+            res.violation(f"C17/{driver}/second-round/wrong-result", f"send({sd[2]}) {p}", wit)
+        if sim.loop.errors:
+            res.violation(f"C17/{driver}/internal-error", f"exception in a callback/task: {sim.loop.errors[0]}", wit)
+    finally:
+        sim.close()
+
+
+def serial_connect_retry_case(driver, seed, i, res):
+    """The serial gateway says nothing while the driver connects (powered up later than the host, cable plugged in late): the
+    first connect() fails within its documented timeout; when the application tries again and the gateway now answers, the
+    handshake is done and commands get their answers."""
+    r = rng(seed, "C17", "connect-retry", driver, i)
+    picker = simlib.Picker(r)
+    sim = simlib.Sim(driver, picker)
+    got = {}
+
+    async def main(sim):
+        d = sim.driver
+        sim.dev.silent = True
+        t0 = sim.world.now
+        try:
+            await asyncio.wait_for(d.connect(), 10.0)
+            got["first"] = "returned"
+        except BaseException as e:  # noqa
+            got["first"] = type(e).__name__
+        got["first_took"] = sim.world.now - t0
+        await asyncio.sleep(r.choice([0.05, 0.5, 2.0]))
+        sim.dev.silent = False
+        try:
+            await asyncio.wait_for(d.connect(), 10.0)
+            got["second"] = "returned"
+        except BaseException as e:  # noqa
+            got["second"] = type(e).__name__
+            return True
+        cmd = simlib.make_command(r, "query", 1, 2, driver)
+        t1 = sim.world.now
+        try:
+            got["send"] = ("ok", await asyncio.wait_for(d.send(cmd), 5.0), cmd, t1)
+        except Exception as e:
+            got["send"] = ("exc", e, cmd, t1)
+        await asyncio.sleep(0.3)
+        return True
+
+    out, stalled = sim.run(main)
+    res.evaluations += 1
+    res.distinct += 1
+    res.hit("serial_connect_retries")
+    wit = {"driver": driver, "seed": seed, "case": i, "first_connect": got.get("first"), "first_took": got.get("first_took")}
+    try:
+        if simlib.detached(out):
+            res.inconclusive.append('harness detached: ' + str(out))
+            return
+        if stalled or out is not True:
+            res.violation(f"C17/{driver}/connect-retry/stall-or-crash", f"simulation ended with {'a stall' if stalled else repr(out)}", wit)
+            return
+        if got.get("first") == "returned":
+            res.add("connect_to_silent_gateway_returned")          # not judged: what connect() does when nothing answers
+        if got.get("second") != "returned":
+            res.violation(f"C17/{driver}/connect-retry/second-connect-failed", f"the gateway answers now, connect() ended with {got.get('second')}", wit)
+            return
+        sd = got.get("send")
+        if sd is None or sd[0] == "exc":
+            res.violation(f"C17/{driver}/connect-retry/send-failed", f"after a connect() that failed against a silent gateway and a second one "
+                          f"that returned, send raised {sd and type(sd[1]).__name__}: {sd and sd[1]}", wit)
+            return
+        p = check_answer(driver, sd[2], sd[1], sim.bus.wire, t_from=sd[3])
+        if p:
+            res.violation(f"C17/{driver}/connect-retry/wrong-result", f"send({sd[2]}) {p}", wit)
+    finally:
+        sim.close()
+
+
 # --------------------------------------------------------------------------------------------- C: serial silence
 
 def silence_case(driver, seed, i, res):
@@ -954,12 +1093,16 @@ def run_shard(desc, tier, seed):
             if desc["driver"] in ("tridonic", "hasseb"):
                 for k in range(desc["steps"] // 2):
                     eagain_case(desc["driver"], seed, k, desc["after"], res)
+                for k in range(desc["steps"] // 2):
+                    second_round_case(desc["driver"], seed, k, res)
                 if desc["driver"] == "tridonic":        # the hasseb driver has no handshake: it is 'connected' once the node is open
                     for k in range(desc["steps"]):
                         handshake_write_error_case(desc["driver"], seed, k, res)
         else:
             for i in range(desc["n"]):
                 silence_case(desc["driver"], seed, i, res)
+            for i in range(12):
+                serial_connect_retry_case(desc["driver"], seed, i, res)
     except Exception as e:
         res.inconclusive.append("harness error: " + short_tb(e))
     return res
